@@ -407,4 +407,39 @@ theorem retryDelay_spaced (script : List Bool) (waits : Nat → Int) (d : Int)
           have := hw a; omega
     · rfl
 
+/-- `RetryWithDelay` when the attempts themselves take time (`durs i ≥ 0`): every attempt starts at
+least `d` after the END of the previous one, hence also at least `d` after its start. -/
+theorem retryDelay_gapped (script : List Bool) (waits durs : Nat → Int) (d : Int)
+    (hw : ∀ i, waits i ≥ d) (fuel a : Nat) (now : Int) :
+    Spec.C18.gapped d (retryDelayTimes script waits durs fuel a now) = true := by
+  induction fuel generalizing a now with
+  | zero => rfl
+  | succ fuel ih =>
+    simp only [retryDelayTimes]
+    split
+    · have := ih (a + 1) (now + durs a + waits a)
+      cases fuel with
+      | zero => simp [retryDelayTimes, Spec.C18.gapped]
+      | succ fuel =>
+        simp only [retryDelayTimes] at this ⊢
+        split
+        · rename_i hf
+          simp only [hf, if_true] at this
+          simp only [Spec.C18.gapped, Bool.and_eq_true, decide_eq_true_eq]
+          exact ⟨by have := hw a; omega, this⟩
+        · simp only [Spec.C18.gapped, Bool.and_eq_true, decide_eq_true_eq, and_true]
+          have := hw a; omega
+    · rfl
+
+/-- with instantaneous attempts the timed loop is the untimed one -/
+theorem retryDelayTimes_instant (script : List Bool) (waits : Nat → Int) (fuel a : Nat) (now : Int) :
+    (retryDelayTimes script waits (fun _ => 0) fuel a now).map (·.1) = retryDelayStamps script waits fuel a now := by
+  induction fuel generalizing a now with
+  | zero => rfl
+  | succ fuel ih =>
+    simp only [retryDelayTimes, retryDelayStamps, Int.add_zero]
+    split
+    · simp [ih]
+    · rfl
+
 end GoguVerif.Theorems.C18
